@@ -189,6 +189,49 @@ def work(unit):
                         ok, det = False, {"exception": repr(e)}
                     if not ok:
                         res.violation("tensordot-mismatch", case, det)
+                    if rep or isinstance(axes, int):
+                        continue
+                    # the other spellings numpy.tensordot understands for
+                    # the same request: every axis written from the end
+                    # (negative), in every sign pattern; a pair of plain ints
+                    # for a single contracted axis
+                    aa, bb = axes
+                    spellings = []
+                    for sg in itertools.product((0, 1), repeat=2 * len(aa)):
+                        if not any(sg):
+                            continue
+                        spellings.append((
+                            tuple(x - len(sa) if g else x
+                                  for x, g in zip(aa, sg[:len(aa)])),
+                            tuple(x - len(sb) if g else x
+                                  for x, g in zip(bb, sg[len(aa):]))))
+                    if len(aa) == 1:
+                        spellings.append((aa[0], bb[0]))
+                        spellings.append((aa[0] - len(sa), bb[0] - len(sb)))
+                        spellings.append(([aa[0]], bb[0]))
+                    for sp in spellings:
+                        res.evals += 1
+                        try:
+                            npw = np.tensordot(rng_a, rng_b, sp)
+                        except Exception:
+                            continue  # numpy rejects: outside the property
+                        if not ref.exact_equal(npw, want):
+                            res.violation("oracle-disagreement:tensordot",
+                                          {**case, "spelling": sp}, None)
+                            continue
+                        try:
+                            got = cc.tensordot(rng_a, rng_b, sp)
+                            ok = ref.exact_equal(got, want)
+                            det = None if ok else \
+                                ref.describe_mismatch(got, want)
+                        except Exception as e:
+                            ok, det = False, {"exception": repr(e)}
+                        if not ok:
+                            res.violation(
+                                "tensordot-mismatch:" + (
+                                    "negative-axes" if isinstance(
+                                        sp[0], tuple) else "int-pair-axes"),
+                                {**case, "spelling": sp}, det)
                 res.key(("td", sa, sb, axes))
         res.sample({"kind": "tensordot", "shape_a": cases[-1][0],
                     "shape_b": cases[-1][1]}, cap=1)
